@@ -24,7 +24,8 @@ func RebaseRef(baseRef string, ref string) string {
 		return ref
 	}
 
-	parts := strings.Split(ref, "#")
+	// only the first '#' starts the fragment (an unescaped name may itself contain '#')
+	parts := strings.SplitN(ref, "#", 2)
 
 	baseParts := strings.Split(baseRef, "#")
 	baseURL, _ := url.Parse(baseParts[0])
